@@ -218,9 +218,9 @@ def run_c17(ctx, tier=None, seed=None):
                 continue
             fx, fy = x.split(' '), y.split(' ')
             ok = False
-            if std_pair and fx[0] == 'rnd' and len(fx) == len(fy) == 15 and fx[:10] == fy[:10]:
-                d = [i for i in range(10, 15) if fx[i] != fy[i]]
-                ok = all((fx[1], names[i - 10], fx[i], fy[i]) in allowed for i in d)
+            if std_pair and fx[0] == 'rnd' and len(fx) == len(fy) == 16 and fx[:11] == fy[:11]:
+                d = [i for i in range(11, 16) if fx[i] != fy[i]]
+                ok = all((fx[1], names[i - 11], fx[i], fy[i]) in allowed for i in d)
             if ok:
                 n_known += 1
                 continue
